@@ -56,6 +56,9 @@ pub enum WHow {
     Try,
     /// writable().await then try_write
     WritableTry,
+    /// AsyncWriteExt::write whose first poll happens in a helper task that is cancelled if the write
+    /// is blocked; the writer task then takes over (another task, another waker)
+    Handover,
 }
 
 #[derive(Clone, Debug, Serialize, Deserialize, PartialEq)]
@@ -290,7 +293,7 @@ fn gen_end(rng: &mut Rng, small: bool, lat: u64) -> EndSpec {
         }
         let len = (*rng.pick(&LENS) as u64).min(left) as u16;
         left -= len as u64;
-        let how = if plain { *rng.pick(&[WHow::Write, WHow::Write, WHow::Try, WHow::WritableTry]) } else { WHow::Write };
+        let how = if plain { *rng.pick(&[WHow::Write, WHow::Write, WHow::Try, WHow::WritableTry, WHow::Handover]) } else { *rng.pick(&[WHow::Write, WHow::Write, WHow::Write, WHow::Handover]) };
         wops.push(WOp::Write { len, how });
         writes += 1;
     }
@@ -846,7 +849,22 @@ async fn writer(sh: Sh, c: usize, side: usize, spec: EndSpec, io: IoCell) {
                 let data = stream_bytes(c as u32, dir as u8, off, len);
                 // Try / WritableTry exist on the unsplit stream only
                 let mut how = *how;
-                if !matches!(&*io.borrow(), Io::Plain(_)) {
+                if !matches!(&*io.borrow(), Io::Plain(_)) && how != WHow::Handover {
+                    how = WHow::Write;
+                }
+                let mut pre: Option<(io::Result<usize>, bool)> = None;
+                if how == WHow::Handover {
+                    let io2 = io.clone();
+                    let d2 = data.clone();
+                    let h = tokio::task::spawn_local(async move { io_write(&io2, &d2).await });
+                    tokio::task::yield_now().await;
+                    if !h.is_finished() {
+                        sh.probe("blocked_write_handed_over_to_another_task");
+                    }
+                    h.abort();
+                    if let Ok((r, _)) = h.await {
+                        pre = Some((r, false));
+                    }
                     how = WHow::Write;
                 }
                 let mut failed: Option<(io::Error, &str)> = None;
@@ -894,12 +912,15 @@ async fn writer(sh: Sh, c: usize, side: usize, spec: EndSpec, io: IoCell) {
                             }
                         }
                     }
-                    WHow::Write => {
+                    WHow::Write | WHow::Handover => {
                         // write_all semantics on top of write
                         let mut done = 0usize;
                         let mut zero = 0;
                         loop {
-                            let (r, blocked) = io_write(&io, &data[done..]).await;
+                            let (r, blocked) = match pre.take() {
+                                Some(x) => x,
+                                None => io_write(&io, &data[done..]).await,
+                            };
                             if blocked {
                                 sh.probe("writer_backpressured");
                                 sh.log.tag("wblk");
